@@ -1,10 +1,32 @@
-(* C16 — timed lists behave like sequences of rows.  Property theorems only. *)
-From Coq Require Import ZArith QArith Qround List Bool.
-From RV Require Import Base.PyNum Frame.Frame Lists.TimedList Lists.SeqSpec.
+(* C16 — timed lists behave like ordered collections of their rows.  Property theorems only. *)
+From Coq Require Import ZArith QArith Qround List Bool Sorting.Permutation.
+From RV Require Import Base.PyNum Frame.Frame Lists.TimedList Lists.SeqSpec Proofs.TimedListProofs.
 Import ListNotations.
 Open Scope Q_scope.
 
+(* One step, every list kind, EVERY frame state (any labels, any row order, duplicates, NaN cells):
+   what the list operation returns is what the same operation on the plain sequence of rows returns
+   (sorting: some permutation sorted by offset; labels never matter). *)
+Theorem C16_step_refines : forall hold allowed f o,
+  refines (fcols f) (seq_step hold allowed (fcols f) (abs_rows f) o) (tl_step hold allowed f o).
+Proof. exact step_refines. Qed.
+
+(* Every finite history of operations: each step refines the sequence semantics of the state it starts from. *)
+Theorem C16_history_refines : forall hold allowed ops f, history_refines hold allowed f ops.
+Proof. exact history_refines_all. Qed.
+
+(* sorting returns a permutation of the rows that is sorted by offset *)
+Theorem C16_sorted : forall asc f,
+  Permutation (abs_rows f) (abs_rows (sort_values COL_OFFSET asc f))
+  /\ sorted_prop (fcols f) asc (abs_rows (sort_values COL_OFFSET asc f))
+  /\ fcols (sort_values COL_OFFSET asc f) = fcols f.
+Proof. exact sort_values_refines. Qed.
+
+(* non-vacuity: a concrete hold list with ties, non-default labels; inclusive flag matters *)
 Example C16_example :
-  let f := mkFrame [0; 1]%Z [(5%Z, [CNum 1000; CNum 2]); (3%Z, [CNum 500; CNum 0]); (9%Z, [CNum 1000; CNum 1])] in
-  meets (fcols f) (seq_step false [0; 1]%Z (fcols f) (abs_rows f) (OAfter 1000 true)) (tl_step false [0; 1]%Z f (OAfter 1000 true)) = true.
-Proof. vm_compute. reflexivity. Qed.
+  let f := mkFrame [0; 1; 2]%Z [(5%Z, [CNum 1000; CNum 2; CNum 250]); (3%Z, [CNum 500; CNum 0; CNum 500]); (9%Z, [CNum 1000; CNum 1; CNum 0])] in
+  meets (fcols f) (seq_step true [0; 1; 2]%Z (fcols f) (abs_rows f) (OHAfter 1000 true true))
+        (tl_step true [0; 1; 2]%Z f (OHAfter 1000 true true)) = true
+  /\ nrows (next_state f (tl_step true [0; 1; 2]%Z f (OHAfter 1000 true true))) = 3%nat
+  /\ nrows (next_state f (tl_step true [0; 1; 2]%Z f (OHAfter 1000 false true))) = 1%nat.
+Proof. vm_compute. repeat split; reflexivity. Qed.
